@@ -34,11 +34,20 @@ type c02Case struct {
 }
 
 var (
-	c02Methods   = []string{"GET", "POST", "PUT", "HEAD", "OPTIONS", "CONNECT", "post"}
-	c02Hosts     = []string{"hysteria", "Hysteria", "hysteria.", "hysteria:443", "example.com", ""}
-	c02Paths     = []string{"/auth", "/auth/", "/Auth", "/authx", "//auth", "/", "/auth?x=1"}
-	c02Auths     = []string{"-", "", "good", "bad"}
-	c02RXs       = []string{"-", "0", "100000", "abc"}
+	c02Methods = []string{"GET", "POST", "PUT", "HEAD", "OPTIONS", "CONNECT", "post"}
+	c02Hosts   = []string{"hysteria", "Hysteria", "hysteria.", "hysteria:443", "example.com", ""}
+	c02Paths   = []string{"/auth", "/auth/", "/Auth", "/authx", "//auth", "/", "/auth?x=1"}
+	// Hysteria-Auth SPELLING: besides the accepted credential and clearly different ones, values that
+	// differ from the accepted credential only by a leading/trailing SP or HTAB. They are legal HTTP/3
+	// field values, delivered to the handler as sent, and they are DIFFERENT strings: the authenticator
+	// (exact compare) rejects them, so the peer is owed the masquerade response, and the authenticator
+	// must have been asked about exactly the string the request carried (see c02BlankSpelling and the
+	// "authenticator was asked" clause in c02Run). Likewise a Hysteria-CC-RX value with a blank. (Added
+	// after the independently seeded change C02-12: the server stripped optional whitespace from the
+	// Hysteria-Auth / Hysteria-CC-RX values before use and handed the authenticator the normalised
+	// credential, so "good " was answered with 233.)
+	c02Auths     = []string{"-", "", "good", "bad", "good ", "\tgood"}
+	c02RXs       = []string{"-", "0", "100000", "abc", "100000 "}
 	c02Noises    = []string{"", "padding", "udp", "cookie5000", "cookie60000"}
 	c02Histories = []string{"fresh", "after-rejected-auth", "after-accepted-auth", "after-two-masq-requests",
 		"after-another-connection-authenticated-and-closed", "while-another-connection-is-authenticated",
@@ -61,6 +70,11 @@ var (
 	c02Masqs = []string{"default 404", "custom echo handler", "bare-Write handler (status and Content-Type left to the server)",
 		"streaming handler (needs http.Flusher)", "handler that aborts (http.ErrAbortHandler) its first call and echoes afterwards"}
 )
+
+// c02BlankSpelling: a header value that has a leading or trailing SP/HTAB (the spelling dimension).
+func c02BlankSpelling(v string) bool {
+	return v != strings.Trim(v, " \t")
+}
 
 // c02HistAborted: the history in which the connection's first request was an aborted masquerade response.
 const c02HistAborted = 9
@@ -298,7 +312,21 @@ func c02Run(c *c02Case) (clause string) {
 		if abort != nil {
 			prior = abort.calls
 		}
+		mark := len(r.Events)
 		resp, err := cl.request(c.Method, c.Host, c.Path, c02Header(c))
+		// "credentials the authenticator rejects": the verdict that counts is the one on the credential
+		// the request CARRIED - whenever the server consults the authenticator for this request, it asks
+		// about exactly the Hysteria-Auth value sent, not a normalised spelling of it. (Added after the
+		// independently seeded change C02-12: optional whitespace was stripped from the value first.)
+		sent := c.Auth
+		if sent == "-" {
+			sent = ""
+		}
+		for _, ev := range r.Events[mark:] {
+			if ev.Kind == "auth" && ev.A != sent {
+				e.Fail("authenticator was asked about %q, the request carried Hysteria-Auth %q", ev.A, sent)
+			}
+		}
 		if c02Accepted(c) {
 			if err != nil {
 				e.Fail("request failed: %v", err)
@@ -394,8 +422,8 @@ func c02Enumerate(sh *evidence.Shard) {
 		c02Methods = append(c02Methods, "PATCH", "DELETE", "TRACE", "Post", "POSTX")
 		c02Hosts = append(c02Hosts, "HYSTERIA", "hysteria:80", "hysteria..", "xhysteria", "hysteria.example.com", "[::1]", "hysteria@evil")
 		c02Paths = append(c02Paths, "/%61uth", "/auth%2F", "/auth/../auth", "/auth#frag", "/auth;x=1", "/AUTH", "/auth?", "/a", "*")
-		c02Auths = append(c02Auths, "GOOD", "good ", " good", "goodx")
-		c02RXs = append(c02RXs, "18446744073709551616", "-1")
+		c02Auths = append(c02Auths, "GOOD", " good", "good\t", " good ", "goodx", "bad ")
+		c02RXs = append(c02RXs, "18446744073709551616", "-1", "\t100000", " 0")
 	}
 	p := sh.Part("requests", "enum")
 	p.Alphabet = map[string]any{"method": c02Methods, "host": c02Hosts, "path": c02Paths, "Hysteria-Auth": c02Auths,
@@ -429,6 +457,14 @@ func c02Enumerate(sh *evidence.Shard) {
 											continue
 										}
 										if hi != 0 && (rx == "abc" || no == "udp") {
+											continue
+										}
+										// blank spellings (C02-12): Hysteria-Auth ones on the near-miss requests of
+										// every history; Hysteria-CC-RX ones on a fresh connection, without noise
+										if c02BlankSpelling(au) && !c02NearMiss(&c) {
+											continue
+										}
+										if c02BlankSpelling(rx) && (hi != 0 || no != "") {
 											continue
 										}
 									}
